@@ -134,4 +134,28 @@ theorem applyPredictor_lit (pr : Option Parms) (data : Bytes) :
           · simp [h1, h2, h3]
           · simp [h1, h2, h3]
 
+/-! ### ASCIIHex / ASCII85: the model with the constants of ascii85.py / base64.py written out -/
+
+theorem asciihexdecode_lit (data : Bytes) :
+    asciihexdecode data =
+      (let d := data.filter (fun b => !isWs b)
+       let t := d.takeWhile (fun b => b != 62)
+       if t.length < d.length then unhexlify (if t.length % 2 == 1 then t ++ [48] else t)
+       else unhexlify d) := by
+  have hf : (fun b : UInt8 => [b] != AHX_EOD) = (fun b => b != 62) := by
+    funext b; by_cases hb : b = 62 <;> simp [AHX_EOD, bne, hb]
+  simp only [asciihexdecode, hf, ahxNeedsPad, AHX_PAD]
+  by_cases h : (List.takeWhile (fun b => b != 62) (List.filter (fun b => !isWs b) data)).length % 2 = 1 <;> simp [h]
+
+theorem a85decode_lit (b : Bytes) :
+    a85decode b =
+      (match a85loop [] (b ++ [117, 117, 117, 117]) with
+       | .error e => .error e
+       | .ok (res, curr) =>
+         .ok (if 4 - curr.length != 0 then res.take (res.length - (4 - curr.length)) else res)) := by
+  simp only [a85decode, A85_PAD, a85Padding]
+  cases a85loop [] (b ++ [117, 117, 117, 117]) with
+  | error e => rfl
+  | ok p => rfl
+
 end PdfVerif.Filters
